@@ -1,5 +1,5 @@
 (* C02 — suggest: exact count, sticky per worker, fresh ids.  Statements only. *)
-From VZ Require Import Base.Prelude Model.Service Proofs.ServiceP.
+From VZ Require Import Base.Prelude Model.Service Proofs.ServiceP Proofs.WedgeP Proofs.StickyP.
 
 (* every new trial is numbered max+1: creating it always succeeds, appends it, its id is larger than every id in the
    study and the maximum grows by exactly one (so ids increase with creation order) *)
@@ -23,12 +23,20 @@ Theorem C02_unfinished_operation_returned : forall s k n c count po o rest,
 Proof. exact unfinished_returned. Qed.
 Print Assumptions C02_unfinished_operation_returned.
 
-(* the sticky / three-source / surplus statements are decided by correspondence + monitor (the loops of SuggestTrials
-   are modelled and executed, not yet proved): *)
-Definition C02_sticky_full : Prop := forall s k n c count po,
+(* STICKY: a worker that already holds at least `count` ACTIVE trials and has no unfinished operation gets exactly its first
+   `count` ACTIVE trials again, in a finished operation without error; trials and study are untouched (only the operation
+   record is added).  The operations of the worker are numbered 1..m, as SuggestTrials itself numbers them. *)
+Theorem C02_sticky : forall s k n c count po,
   get_node k (nodes s) = Some n -> immutable (n_study n) = false ->
-  filter (fun o => negb (o_done o)) (filter (fun o => N.eqb (o_client o) c) (n_ops n)) = [] ->
+  (forall o, In o (filter (fun o => N.eqb (o_client o) c) (n_ops n)) -> o_done o = true) ->
+  numbered_from' 1 (filter (fun o => N.eqb (o_client o) c) (n_ops n)) ->
   count <= length (filter (fun t => tstate_eqb (t_state t) ACTIVE && N.eqb (t_client t) c) (n_trials n)) ->
   exists o s', step s (SuggestTrials k c count, po) = (s', Done (RpOp o)) /\
+    o_done o = true /\ o_err o = false /\
     o_trials o = firstn count (filter (fun t => tstate_eqb (t_state t) ACTIVE && N.eqb (t_client t) c) (n_trials n)) /\
-    (exists n', get_node k (nodes s') = Some n' /\ n_trials n' = n_trials n).
+    (exists n', get_node k (nodes s') = Some n' /\ n_trials n' = n_trials n /\ n_study n' = n_study n).
+Proof. exact sticky. Qed.
+Print Assumptions C02_sticky.
+
+(* PARTIAL: the three-source order (own ACTIVE, queued REQUESTED, new) and the queueing of surplus suggestions are decided by
+   correspondence + monitor: the loops of SuggestTrials are modelled and executed, their effect is not yet stated as a theorem. *)
